@@ -600,4 +600,8 @@ func TestC17(t *testing.T) {
 	h.Run(c, "walk", c.N(15000, 150000), gen, oracle)
 	c.Rule("together: a program of the same generator, lengthened by 0-4000 copies of one statement, parsed anew (a root nobody has walked), then walked by 2-8 goroutines at the same moment, each with a callback and a record of its own; a quarter of the walkers return an error at a drawn call; a quarter of the cases use two independent parses of the text, a quarter start after one solitary complete walk; every walker is judged alone by the rules of `walk`; non-trivial as in `walk`")
 	h.Run(c, "together", c.N(450, 4500), genTogether, oracleTogetherNoShrink)
+	c.Rule("errs: a program of the same generator walked 1-4 times, each time with a callback that returns one error value at a drawn callback (first, last, early, anywhere) and nil otherwise; the error values come from a pool of 50: errors.New / fmt.Errorf values, sentinel errors of the standard library (filepath.SkipDir, filepath.SkipAll, io.EOF, context.Canceled, os.ErrNotExist, syscall.Errno values, ...), anko's own (vm.ErrBreak, vm.ErrContinue, vm.ErrReturn, *parser.Error, *vm.Error), error values of unusual dynamic types (struct value, typed nil pointer, integer, slice and func types that == cannot compare, an error whose Is says yes to everything), a quarter of them wrapped (fmt %w, errors.Join, *fs.PathError, a type with Unwrap); Walk must return that very value and the callback must not be called again; non-trivial = >= 3 rare node kinds and at least one error that is not an errors.New / fmt.Errorf value")
+	h.Run(c, "errs", c.N(2500, 25000), genErrs, oracleErrs)
+	c.Rule("again: a program of the same generator (three quarters with 1-3 extra anonymous calls: callee a call, member, index, function literal, parenthesised; 0-4 arguments, nested) is parsed once and walked 2-4 times; between the walks every value a walk presented that is NOT one of the tree's own nodes (as enumerated by reflection) is written over - zeroed, slices set to nil, halved, replaced by nodes of the harness's own, reordered - after the walk returned, the moment it was presented (that walk is not judged), or after a walk stopped by a callback error; only exported fields of the presented struct itself are written, the tree is compared with its rendering as parsed after every walk (a difference excludes the case); every walk whose callback only records, and always the last one, is judged by the rules of `walk`; non-trivial = at least one value outside the tree was written over before the last walk")
+	h.Run(c, "again", c.N(2500, 25000), genAgain, oracleAgain)
 }
